@@ -149,9 +149,14 @@ def main(pid):
     if batch:
         rep.sample({"text": meta[batch[0]["id"]][1][:300], "opts": meta[batch[0]["id"]][2],
                     "events": [e["ev"] for e in batch[0]["events"]][:20]})
+    if pid == "C03":
+        import pycallcheck
+        pycallcheck.run(rep, thorough, "C03")
+        rep.assumptions += ["executed half: the public attributes of every module object and class object of built 'call' profile "
+                            "modules must be exactly the declared names (PyCall!ExposeNs); top namespace [''] and empty ignore list"]
     if pid == "C04":
         import pycallcheck
-        pycallcheck.run(rep, thorough)
+        pycallcheck.run(rep, thorough, "C04")
         rep.assumptions += ["executed half: modules of the 'call' profile only (basic / string / declared-class parameter types), top "
                             "namespace [''], no ignore list; the library is rendered by harness/cpplib.py from the specification's tree"]
     rep.assumptions += ["the scanner harness/proj_py.py (validated on the repository's golden outputs) is trusted",
